@@ -14,13 +14,13 @@ TEXT = {
         "technique": "Rocq theorems over a Gallina model + differential correspondence + property oracle",
     },
     "C17": {
-        "text": "Proved: ImportJSON is total on every parsed document (error or spec, never a panic), the encoding / prefix name tables are mutually inverse on the exportable vocabulary and agree with the live maps regenerated from specs/builder.go, padding descriptions import back to the same padder; ImportJSON of the exported document is the specification itself for every field tree of the expressible vocabulary at any nesting depth within the importer's recursion and for whole message specifications, the imported rows determine the specification, so the re-imported specification is the exported one (same Pack / Unpack, identical re-export). The model of export and import is compared with the library on generated specs (exported document as a canonical tree, imported spec as a term), on the same specs with tag lengths left out, and on mutated documents; the oracle checks the structural round trip, byte-identical re-export, determinism and identical behaviour on the real library.",
+        "text": "Proved: ImportJSON is total on every parsed document (error or spec, never a panic), the encoding / prefix name tables are mutually inverse on the exportable vocabulary and agree with the live maps regenerated from specs/builder.go, padding descriptions import back to the same padder; ImportJSON of the exported document is the specification itself for every field tree of the expressible vocabulary at any nesting depth within the importer's recursion and for whole message specifications, the imported rows determine the specification, so the re-imported specification is the exported one (same Pack / Unpack, identical re-export); the shipped specifications the format can express (all but the EMV composite) export to a document whose import is the specification itself (evaluated in the kernel on the regenerated specs). The model of export and import is compared with the library on generated specs (exported document as a canonical tree, imported spec as a term), on the same specs with tag lengths left out, and on mutated documents; the oracle checks the structural round trip, byte-identical re-export, determinism and identical behaviour on the real library.",
         "design_ref": "DESIGN.md section 6 C17",
         "note": "Trusted: Coq kernel, hand-written model of specs/builder.go on parsed documents (validated by correspondence), the table translator, encoding/json's parser, Go harness.",
         "technique": "Rocq theorems over a Gallina model + generated name tables + differential correspondence + property oracle",
     },
     "C18": {
-        "text": "The catalogue theorem is evaluated on the error-site table regenerated from the sources on every run: outside a closed, justified list of sites bounded below 8 value bytes, no error message formats a value-derived string unless hidden behind a SafeError, and every error that quotes its input (strconv, hex, json) is hidden or bounded. The Describe masking theorems show the printed value never contains the complete PAN / PIN block, and the filters of Track1, Track2 and Track3 fields show every packable well-formed track with the PAN masked and nothing else changed; a track the field cannot parse again is shown by its first and last four characters (repair of F31, found by the thorough tier). The dynamic oracle induces failures with high-entropy secrets across kinds, encodings and operations and greps the library's error texts and Describe output (partial: the translator's classification is syntactic; tracks carried in String fields are checked by search only).",
+        "text": "The catalogue theorem is evaluated on the error-site table regenerated from the sources on every run: outside a closed, justified list of sites bounded below 8 value bytes, no error message formats a value-derived string unless hidden behind a SafeError, and every error that quotes its input (strconv, hex, json) is hidden or bounded. The Describe masking theorems show the printed value never contains the complete PAN / PIN block, and the filters of Track1, Track2 and Track3 fields show every packable well-formed track with the PAN masked and nothing else changed; a track the field cannot parse again is shown by its first and last four characters (repair of F31, found by the thorough tier), and every output of a track filter is one of these two forms - never the raw text. The dynamic oracle induces failures with high-entropy secrets across kinds, encodings and operations and greps the library's error texts and Describe output (partial: the translator's classification is syntactic; tracks carried in String fields are checked by search only).",
         "design_ref": "DESIGN.md section 6 C18",
         "note": "Trusted: Coq kernel, the go/ast error-site translator and its argument classes, hand-written masking model validated by correspondence through the real Describe, Go harness.",
         "technique": "Rocq theorems over a generated error-site catalogue and a masking model + secret-grepping oracle",
@@ -38,13 +38,13 @@ TEXT = {
         "technique": "Rocq theorems over a Gallina model + differential correspondence + property oracle",
     },
     "C14": {
-        "text": "Theorems quantified over every message state (hence every point of every operation sequence): the bits of the packed bitmap (auto-expanding or fixed), continuation bits aside, are exactly the ids GetFields reports; JSON is built from the same set and succeeds iff Pack does; Pack/JSON do not change values or the set; the set per operation: a setter adds exactly its id, Marshal of a struct adds exactly the ids of its non-zero indexed fields, UnsetField removes exactly its id and resets the whole nested state, UnsetSubfields by path (any depth) leaves nothing populated at the path, an as-new object there and every other path as it was, a successful Unpack of any bytes leaves the MTI, the bitmap and exactly the announced elements. The model of all operations is compared with the library after every step of random and exhaustive short histories; the oracle keeps a reference set (written since creation or the last Unpack, minus unset) and checks - in a quiet replay that performs only the history's operations - that nothing that was unset, replaced by an Unpack, or decoded by a failed Unpack ever comes back (this found and led to the repair of F28 and F30).",
+        "text": "Theorems quantified over every message state (hence every point of every operation sequence): the bits of the packed bitmap (auto-expanding or fixed), continuation bits aside, are exactly the ids GetFields reports; JSON is built from the same set and succeeds iff Pack does; Pack/JSON do not change values or the set; the set per operation: a setter adds exactly its id, Marshal of a struct adds exactly the ids of its non-zero indexed fields, UnsetField removes exactly its id and resets the whole nested state, UnsetSubfields by path (any depth) leaves nothing populated at the path, an as-new object there and every other path as it was, a successful Unpack of any bytes leaves the MTI, the bitmap and exactly the announced elements, UnmarshalJSON adds exactly the keys of the accepted document (messages, and composites at any depth); over histories: after any operation sequence every data element outside the populated set is exactly as in a new message, so nothing can come back. The model of all operations is compared with the library after every step of random and exhaustive short histories; the oracle keeps a reference set (written since creation or the last Unpack, minus unset) and checks - in a quiet replay that performs only the history's operations - that nothing that was unset, replaced by an Unpack, or decoded by a failed Unpack ever comes back (this found and led to the repair of F28 and F30).",
         "design_ref": "DESIGN.md section 6 C14",
         "note": 'Trusted: Coq kernel, hand-written model (Model/Message.v, Model/Json.v, Model/MessageOps.v) validated by correspondence on every run, extraction/driver, Go harness and property oracle.',
         "technique": "Rocq theorems over a Gallina model + differential correspondence + property oracle",
     },
     "C15": {
-        "text": 'Proved: Pack walks the unique ascending arrangement of the presence set whatever the map order (likewise subfield tags), Pack/JSON are pure on values and presence, padders and encoders build results in fresh buffers. Pointer-level claims (clone shares no state, no write to caller memory) cannot be expressed in the functional model and are checked by the oracle on the library by mutating both sides and by sentinel-filled spare capacity (partial).',
+        "text": 'Proved: Pack walks the unique ascending arrangement of the presence set whatever the map order (likewise subfield tags), Pack/JSON are pure on values and presence and repeatable (packing the object a Pack leaves behind gives the same bytes or the same failure and the same object), padders and encoders build results in fresh buffers. Pointer-level claims (clone shares no state, no write to caller memory) cannot be expressed in the functional model and are checked by the oracle on the library by mutating both sides and by sentinel-filled spare capacity (partial).',
         "design_ref": "DESIGN.md section 6 C15",
         "note": 'Trusted: Coq kernel, hand-written model (Model/Message.v, Model/Json.v, Model/MessageOps.v) validated by correspondence on every run, extraction/driver, Go harness and property oracle.',
         "technique": "Rocq theorems over a Gallina model + differential correspondence + property oracle",
@@ -74,7 +74,7 @@ TEXT = {
         "technique": "Rocq theorems over a Gallina model + differential correspondence + property oracle",
     },
     "C08": {
-        "text": 'Theorems: Pack of a primitive or of a composite (at the root of any spec tree) succeeds only if the (padded) value / total encoded length is within the maximum, equals the fixed length and fits the digits; an accepted Unpack has an announced length within the maximum and within the bytes available.',
+        "text": 'Theorems: Pack of a primitive or of a composite (at the root of any spec tree) succeeds only if the (padded) value / total encoded length is within the maximum, equals the fixed length and fits the digits; an accepted Unpack has an announced length within the maximum and within the bytes available; for whole specification trees: when Pack of a field of any coherent specification succeeds, the declared length was enforced at every node that contributed bytes, at every depth.',
         "design_ref": "DESIGN.md section 6 C08",
         "note": 'Trusted: Coq kernel, hand-written model (Model/Field.v, Model/Message.v) validated by correspondence on every run, extraction/driver, Go harness incl. the spec/value generators and the property oracle.',
         "technique": "Rocq theorems over a Gallina model + differential correspondence + property oracle",
@@ -86,13 +86,13 @@ TEXT = {
         "technique": "Rocq theorems over a Gallina model + differential correspondence + property oracle",
     },
     "C10": {
-        "text": "Proved for primitive fields, for every composite field (any nesting, all modes) and for whole messages: the outcome of Unpack does not depend on what the object held, and after a successful Unpack neither does the complete state of the object (hence values, nested subfields, re-packed bytes, JSON), for objects in a clean state (every subfield / element that is not set is as new; the element at which the last Unpack failed excepted). Clean is proved to hold for new objects and to be kept by Unpack (whatever its outcome), UnsetField, the setters by id, Message.Marshal of any struct (whatever its outcome), every accepted UnmarshalJSON and UnsetFields by path; failing JSON documents (state depends on Go's map order) are not claimed. This rests on the repairs F12, F27, F28, F29, F30, all found by the checks. Track fields: model and search.",
+        "text": "Proved for primitive fields, for every composite field (any nesting, all modes) and for whole messages: the outcome of Unpack does not depend on what the object held, and after a successful Unpack neither does the complete state of the object (hence values, nested subfields, re-packed bytes, JSON), for objects in a clean state (every subfield / element that is not set is as new; the element at which the last Unpack failed excepted). Clean is proved to hold for new objects and to be kept by Unpack (whatever its outcome), UnsetField, the setters by id, Message.Marshal of any struct (whatever its outcome), every accepted UnmarshalJSON and UnsetFields by path; failing JSON documents (state depends on Go's map order) are not claimed. Over histories: after any sequence of the state-changing operations of the message API (setters, unset by id and path, Unpack / Marshal whatever their outcome, accepted JSON, Pack, MarshalJSON, Bitmap, Clone) Unpack of any bytes behaves as on a new message. This rests on the repairs F12, F27, F28, F29, F30, all found by the checks. Track fields: model and search.",
         "design_ref": "DESIGN.md section 6 C10",
         "note": 'Trusted: Coq kernel, hand-written model (Model/Field.v, Model/Message.v) validated by correspondence on every run, extraction/driver, Go harness incl. the spec/value generators and the property oracle.',
         "technique": "Rocq theorems over a Gallina model + differential correspondence + property oracle",
     },
     "C19": {
-        "text": "Proved: every Unpack failure of the message model carries a non-empty field-id path headed by the element at which decoding stopped (MTI 0, bitmap 1, else an announced element at or after the loop position); inside composites the path continues with the tag of the failing subfield and a path of that subfield's specification, at every depth and in all three modes; truncation: any field (primitive or composite of any mode and depth) cut strictly inside its packed bytes is rejected as its own failure with the object left as it was, and a packed message cut at any offset is reported against exactly the element - MTI, bitmap, data element k - that owns the byte at that offset. The truncation clause is also checked on every truncation offset of generated messages (owner computed independently from element lengths); typing of PackError/UnpackError is glue outside the model and is checked on the library (partial).",
+        "text": "Proved: every Unpack failure of the message model carries a non-empty field-id path headed by the element at which decoding stopped (MTI 0, bitmap 1, else an announced element at or after the loop position); inside composites the path continues with the tag of the failing subfield and a path of that subfield's specification, at every depth and in all three modes; truncation: any field (primitive or composite of any mode and depth) cut strictly inside its packed bytes is rejected as its own failure with the object left as it was, and a packed message cut at any offset is reported against exactly the element - MTI, bitmap, data element k - that owns the byte at that offset, and the elements before it remain readable (the object holds the MTI and every preceding data element, populated, equivalent to what was packed). The truncation clause is also checked on every truncation offset of generated messages (owner computed independently from element lengths); typing of PackError/UnpackError is glue outside the model and is checked on the library (partial).",
         "design_ref": "DESIGN.md section 6 C19",
         "note": 'Trusted: Coq kernel, hand-written model (Model/Field.v, Model/Message.v) validated by correspondence on every run, extraction/driver, Go harness incl. the spec/value generators and the property oracle.',
         "technique": "Rocq theorems over a Gallina model + differential correspondence + property oracle",
